@@ -28,7 +28,7 @@ theorem splice_length (buf : List U8) (off : Nat) (src : List U8) (h : off + src
   omega
 
 /-- writing right after an already written prefix -/
-theorem splice_append (acc rest src : List U8) (h : src.length ≤ rest.length) :
+theorem splice_append (acc rest src : List U8) :
     splice (acc ++ rest) acc.length src = acc ++ src ++ rest.drop src.length := by
   simp only [splice, List.take_left', List.drop_append, List.append_assoc, List.length_append]
   congr 2
@@ -57,7 +57,7 @@ theorem foldl_wr_range {α : Type} (f : Nat → α) (d : Array α) :
 /-- the last, partial chunk: the buffer is `pre ++` (the `n % 8` bytes not yet written) -/
 theorem splice_tail (pre dest x : List U8) (hp : pre.length = 8 * (dest.length / 8)) (hx : x.length = dest.length % 8) :
     splice (pre ++ dest.drop (8 * (dest.length / 8))) (8 * (dest.length / 8)) x = pre ++ x := by
-  rw [← hp, splice_append _ _ _ (by simp [hp]; omega)]
+  rw [← hp, splice_append _ _ _]
   rw [List.drop_eq_nil_of_le (by simp [hp]; omega)]
   simp
 
@@ -88,7 +88,7 @@ theorem whileF_fillLoop (g : Direct σ)
     · simp only [h8, decide_true, if_true]
       rw [hb]
       have hchunk : (U64.toLE (g.nextU64 r).1).length = 8 := rfl
-      rw [splice_append acc rest _ (by omega)]
+      rw [splice_append acc rest _]
       have e1 : acc.length + 8 = (acc ++ U64.toLE (g.nextU64 r).1).length := by simp [hchunk]
       have e2 : rest.length - 8 = (rest.drop (U64.toLE (g.nextU64 r).1).length).length := by simp [hchunk]
       rw [e1, e2, ih _ _ _ (by simp [hchunk]; omega)]
@@ -100,6 +100,33 @@ theorem whileF_fillLoop (g : Direct σ)
       simp only [h8, decide_false, Bool.false_eq_true, if_false, h80, fillLoop, Nat.mul_zero, Nat.add_zero, List.append_nil,
         List.drop_zero, Nat.mod_eq_of_lt hlt]
 
+end
+
+section
+variable {w : Nat}
+/-- the `zipped.for_each` of `fill_via_chunks`: the first `n` words written chunk by chunk at the start of the buffer -/
+theorem foldl_splice_words (size : Nat) (toLE : BitVec w → List U8) (hlen : ∀ x, (toLE x).length = size)
+    (src : List (BitVec w)) (dest : List U8) : ∀ n, n ≤ src.length →
+    List.foldl (fun d j => splice d (j * size) (toLE (src.getD j 0))) dest (List.range n) =
+      (src.take n).flatMap toLE ++ dest.drop (n * size) := by
+  intro n
+  induction n with
+  | zero => intro _; simp
+  | succ n ih =>
+    intro h
+    rw [List.range_succ, List.foldl_append, ih (by omega)]
+    have hB : ((src.take n).flatMap toLE).length = n * size := by
+      have : ∀ (l : List (BitVec w)), (l.flatMap toLE).length = l.length * size := by
+        intro l; induction l with
+        | nil => simp
+        | cons x xs ih => simp [List.flatMap_cons, hlen, ih, Nat.succ_mul]; omega
+      rw [this, List.length_take, Nat.min_eq_left (by omega)]
+    simp only [List.foldl_cons, List.foldl_nil]
+    rw [← hB, splice_append]
+    have hn : n < src.length := by omega
+    have hg : src.getD n 0 = src[n] := by simp [List.getD, hn]
+    rw [hg, List.take_succ_eq_append_getElem hn, List.flatMap_append, List.drop_drop, hlen, hB]
+    simp [Nat.succ_mul, Nat.add_comm]
 end
 
 end Rngs
